@@ -51,6 +51,9 @@ structure Env where
   prematch : Bool                      -- some changing handler's filters accept the object at all
   changeReq : Bool                     -- `registry._changing.requires_finalizer(cause)`: a mandatory deletion handler prematches
   foreignFins : Bool                   -- somebody else's finalizer is on the object (it survives our release)
+  idleFns : Bool                       -- every cycle's patch carries transformation functions (`patch.fns`) that yield
+                                       -- no JSON-patch operation (e.g. an idempotent one that is already satisfied):
+                                       -- the patch is non-empty, but no request is sent for it
   constPatch : Bool                    -- every cycle's patch carries content that changes nothing on the server
                                        -- (e.g. the constant result of an `on.event` handler, stored again each time).
                                        -- NOT modelled: after a keepalive touch that wakes nobody, that patch goes out
@@ -129,6 +132,11 @@ def cp (env : Env) : Nat := if env.constPatch then 1 else 0
 /-- from the end of the sleep to the next event: (the no-op patch was sent before the sleep, if any) + touch + echo -/
 def latS (env : Env) : Tick := (if env.constPatch then env.rtt else 0) + env.lat
 
+/-- The patch of the cycle is non-empty but produces NO request (only functions without operations, and no
+    merge content besides): `patch_and_check` answers `None` for the version, which `application.apply`
+    takes for "the patch changed the object" — the third patch class of the code (finding C03-N1). -/
+def idle (env : Env) : Bool := env.idleFns && !env.constPatch
+
 /-- did the handling pass put anything into the patch that CHANGES the object (records or last-handled)? -/
 def changedOf (env : Env) (s : State E) : Bool :=
   (ids env).any (fun i => (pass env s).P' i != s.P i) ||
@@ -148,11 +156,16 @@ def nextState (env : Env) (s : State E) (now' : Tick) (pend : Bool) (w : Nat) : 
 
 /-- A turn in which `process_changing_cause` is reached and the object is not released: the pass, then
     `application.apply` (as of repo fix 7224f57): a patch that CHANGED the object → its echo is the next
-    event, a pending sleep is skipped; otherwise (no patch, or a patch that changed nothing: no event will
-    follow it) delays → sleep (capped) → the touch-dummy PATCH → its echo; else nothing is pending. -/
+    event, a pending sleep is skipped; a non-empty patch for which NO request is sent (`idle`) is taken for
+    a change as well — the sleep is skipped although no event will follow (C03-N1); otherwise (no patch, or
+    a patch that changed nothing) delays → sleep (capped) → the touch-dummy PATCH → its echo; else nothing
+    is pending. -/
 def handleTurn (env : Env) (s : State E) : State E :=
   if changedOf env s then
     nextState env s (s.now + env.lat) true (s.writes + 1)
+  else if idle env then
+    -- nothing is sent, yet the patch counts as a change: no sleep, no touch — and no event will follow
+    nextState env s s.now false (s.writes + cp env)
   else
     match minDelay (pass env s).delays with
     | some d =>
@@ -216,6 +229,12 @@ def act (env : Env) (s : State E) : Act E → State E
   | .lostWrite _ t => restart s t
 
 def runActs (env : Env) (s : State E) (acts : List (Act E)) : State E := acts.foldl (act env) s
+
+/-- A history in which the operator's configuration as seen by this object may differ from action to action
+    (a label edit changes which handlers match, whether any prematches, whether a finalizer is required; an
+    operator upgrade changes limits and lifecycle): every action comes with the environment in force. -/
+def runActsV (s : State E) (hist : List (Env × Act E)) : State E :=
+  hist.foldl (fun st ea => act ea.1 st ea.2) s
 
 /-- a freshly created object nobody has handled yet, its ADDED event pending -/
 def created (e : E) (t : Tick) : State E :=
@@ -312,10 +331,10 @@ def invsOf (env : Env) : Nat → State E → List (List (Id × Nat))
   | n + 1, s => (pass env s).invoked ::
       (if (pass env s).closed then [] else invsOf env n (loopStep env s))
 
-/-- the clock readings / handler behaviour of the next `n` turns, as C02 `Step`s -/
-def stepsOf (env : Env) : Nat → State E → List (Tick × Tick × (Id → Nat → C02.Outcome))
+/-- the clock reading and the selection of the next `n` turns (the rest of a C02 `StepV` is in `env`) -/
+def stepsOf (env : Env) : Nat → State E → List (Tick × List Id)
   | 0, _ => []
-  | n + 1, s => (s.now, s.now, env.exec) :: stepsOf env n (loopStep env s)
+  | n + 1, s => (s.now, selOf env s) :: stepsOf env n (loopStep env s)
 
 /-- how many of the next `n` turns close a handling cycle (write the last-handled state) -/
 def closings (env : Env) : Nat → State E → Nat
